@@ -22,7 +22,7 @@ def _sm(rule, probes, quick=9000, thorough=400000):
     return {
         "engine": "sm", "level": "exploration", "rule": rule,
         "level_text": "seeded search over control-loop histories, clock schedules and faults (dropped engage(), external stops, dashboard duration edits, restarts, slow state functions) of generated machines run on the real code; every step compared with an executable reference model written from the property text, plus model-independent history invariants; sampling, not proof",
-        "level_note": "trusted: WPILib HAL simulation clock and local ntcore; the reference model and invariants in /verif/models; generated machines cover <=6 states, <=110 iterations, one in-state action per call",
+        "level_note": "trusted: WPILib HAL simulation clock and local ntcore; the reference model and invariants in /verif/models; generated machines cover <=6 states / <=60 iterations (quick tier), <=8 states / <=200 iterations (thorough tier), one in-state action per state-function call, at most two live machines of a class",
         "quick": {"runs": quick, "wall_s": 150}, "thorough": {"runs": thorough, "wall_s": 1500},
         "probes_expected": probes,
         "state_measure": "abstract reference-model states (kind of current state, fresh, executing, request, asm flag) and (state, op, state) transitions, hashed",
@@ -55,13 +55,13 @@ REAL_STUB_ROBOT = {
     "simulated": ["driver station (control words via DriverStationSim at scheduler-chosen call sites)", "whoever wakes a sleeping notifier (scheduler advances the paused clock)",
                   "the user's robot, components, autonomous modes (generated; every callback is a yield point)", "dashboard writing 'Auto Selector'", "endCompetition() caller"],
 }
-ENGINE_TEXT["robot"] = "whole MagicRobot lifetime on the main thread with hal.waitForNotifierAlarm inverted into the scheduler; generated robot/components/modes; DS packets, stalls, late wake-ups, raising callbacks, shutdown at arbitrary call sites"
+ENGINE_TEXT["robot"] = "whole MagicRobot lifetime on the main thread with hal.waitForNotifierAlarm inverted into the scheduler; generated robot/components/modes; DS packets, stalls, late wake-ups, raising callbacks, shutdown at arbitrary call sites; also executes the integration runs of C01-C04, C13, C15 (machine embedded in a robot) and C19 (the robot's loop watchdog)"
 
 def _robot(rule, probes, level_text, quick=4000, thorough=200000, level="exploration"):
     return {
         "engine": "robot", "level": level, "rule": rule,
         "level_text": level_text,
-        "level_note": "trusted: WPILib HAL simulation (clock, notifiers, DS data) and local ntcore; the reference model/invariants in /verif/models; <=5 components, <=3 autonomous modes, <=45 loop iterations per lifetime",
+        "level_note": "trusted: WPILib HAL simulation (clock, notifiers, DS data) and local ntcore; the reference model/invariants in /verif/models; <=5 components, <=3 autonomous modes, <=45 loop iterations per lifetime (quick tier), <=100 (thorough tier)",
         "quick": {"runs": quick, "wall_s": 150}, "thorough": {"runs": thorough, "wall_s": 1500},
         "probes_expected": probes,
         "state_measure": "(mode shown in /robot/mode, callback role) pairs and their successions along the expected log, hashed",
@@ -105,7 +105,7 @@ PROPS["C16"] = {
     "engine": "timers", "level": "exploration",
     "rule": "seeded periods (>= 1 ms, incl. values whose microsecond conversion truncates) and loop-body durations shorter than / equal to / several times the period, late wake-ups, free()/with-exit/double free at random points followed by more wait() calls; non-trivial = an overrun followed by a wait that sleeps again (catch-up observed); distinct = distinct sequence of (op, sleep/exact/overrun class)",
     "level_text": "seeded search over loop-timing schedules on the real HAL notifier; every wait() checked against the t0 + k*P grid exactly in integer microseconds; sampling, not proof",
-    "level_note": "trusted: WPILib HAL simulation notifier implementation; the period is read at the HAL's 1 us resolution (any fixed integer p with |p - P*1e6| < 1); one NotifierDelay alive at a time",
+    "level_note": "trusted: WPILib HAL simulation notifier implementation; the period is read at the HAL's 1 us resolution (any fixed integer p with |p - P*1e6| < 1); one NotifierDelay alive at a time (the previously released one stays referenced and may still be waited on)",
     "quick": {"runs": 9000, "wall_s": 150}, "thorough": {"runs": 400000, "wall_s": 1500},
     "probes_expected": ["wait_slept", "wait_exact", "wait_overrun", "caught_up_after_overrun", "wait_after_free", "freed_by_exit", "freed_by_free_twice", "entered_later", "stale_wait_on_released_instance"],
     "state_measure": "(op, wait class) pairs and their successions, hashed",
